@@ -63,3 +63,35 @@ def c07_upconverter_sel_loses_order(v, case):
         return ws is not None and ws >= nm - 0
     return v.get("kind") in ("final-store-differs-from-model", "no-progress-after-final-flush", "user-read-beat-count",
                              "user-write-beat-count", "controller-side-beat-count", "read-beat-without-pending-read")
+
+
+# ------------------------------------------------------------------------------------------------ C08
+def c08_cdc_fifos_overcommitted(v, case):
+    """LiteDRAMNativePortCDC has no flow control for the pulsed data channels: the core strobes wdata.ready / rdata.valid
+    regardless of the FIFO state, so the crossing only works while its data FIFOs can absorb everything that can be in
+    flight (cmd FIFO depth + commands the core holds for one port).  The crossbar's fixed 4/16/16 depths cover
+    cmd_buffer_depth <= 8 only.  Accepts a witness only in cases where the relevant FIFO is smaller than that bound."""
+    k = v.get("kind")
+    ow, orr = v.get("overcommitted_wdata"), v.get("overcommitted_rdata")
+    if k in ("wdata-underrun", "wdata-channel-differs"):
+        return bool(ow)
+    if k in ("rdata-dropped", "rdata-channel-differs", "read-beat-count"):
+        return bool(orr)
+    if k in ("read-data-mismatch", "no-progress", "read-beat-without-pending-read"):
+        return bool(ow or orr)
+    return False
+
+
+# ------------------------------------------------------------------------------------------------ C05
+def c05_bank_lockout(v, case):
+    """The crossbar's per-bank arbiter only re-arbitrates while the bank is neither requested by its current owner nor
+    locked (arbiter.ce = ~bank.valid & ~bank.lock): a port that keeps one bank's queue non-empty owns the bank for as long
+    as it likes.  Accepts only witnesses in which the victim waited for *acceptance* on a bank while the overtaking port's
+    commands during that wait all went to that same bank."""
+    if v.get("kind") != "victim-command-not-accepted-in-bound":
+        return False
+    vb = v.get("victim_bank")
+    ob = v.get("overtaker_banks")
+    if vb is None or not ob:
+        return False
+    return [list(x) for x in ob] == [list(vb)]
